@@ -2977,10 +2977,10 @@ sexp sexp_read_number (sexp ctx, sexp in, int base, int exactp) {
   }
 
 #if SEXP_USE_COMPLEX
-  if (c == 'i' || c == 'I') val = 1;
+  if ((c == 'i' || c == 'I') && digit_value(c) >= base) val = 1;
 #endif
 
-  for ( ; sexp_isxdigit(c); c=sexp_read_char(ctx, in)) {
+  for ( ; sexp_isdigit(c) || sexp_isalpha(c); c=sexp_read_char(ctx, in)) {
     digit = digit_value(c);
     if ((digit < 0) || (digit >= base))
       break;
@@ -4000,7 +4000,8 @@ sexp sexp_string_to_number_op (sexp ctx, sexp self, sexp_sint_t n, sexp str, sex
   if (((base=sexp_unbox_fixnum(b)) < 2) || (base > 36))
     return sexp_user_exception(ctx, self, "invalid numeric base", b);
   if (sexp_string_data(str)[0]=='\0'
-      || (sexp_string_data(str)[1]=='\0' && !sexp_isxdigit((unsigned char)(sexp_string_data(str)[0]))))
+      || (sexp_string_data(str)[1]=='\0' && !sexp_isdigit((unsigned char)(sexp_string_data(str)[0]))
+          && !sexp_isalpha((unsigned char)(sexp_string_data(str)[0]))))
     return SEXP_FALSE;
   sexp_gc_preserve2(ctx, in, res);
   in = sexp_open_input_string(ctx, str);
